@@ -214,6 +214,7 @@ def run(m, tier):
     from rules import engine_tables
     results.append(engine_tables.end_stmt_rule(m, "C08.R5"))
     results.append(engine_tables.bracket_rule(m, "C08.R6"))
+    results.append(engine_tables.call_base_rule(m, "C08.R11"))
     from rules import regex_rules
     results.append(regex_rules.anchor_rule(m, "C08.R7"))
     from rules import delim_rules
